@@ -44,7 +44,7 @@ def padOf : String → Option (BitVec 8)
 def addReason (m : Spec.Mon) (data : Bytes) (off size align : Nat) : String :=
   if off % data.length != 0 then "add-misaligned"
   else if !(decide (off + data.length ≤ size)) then "add-beyond-reported-size"
-  else if align % data.length != 0 then "alignment-does-not-cover"
+  else if !(Spec.alignCovers align data.length) then "alignment-does-not-cover"
   else if !(decide (m.size ≤ size)) || !(decide (m.align ≤ align)) then "pool-shrank"
   else if m.hist.any (fun e => e.data == data && e.offset != off) then "not-deduplicated-or-unstable"
   else "overlaps-earlier-constant"
